@@ -142,6 +142,15 @@ def run(ctx):
     cfg = ("INIT Init\nNEXT Next\nINVARIANT Inv\nINVARIANT ActionProps\nCONSTANTS\n  MaxLists = %d\n  MaxItems = 12\n"
            % (3 if quick else 4))
     ctx.model_check("LoDSMMC", cfg_text=cfg, timeout=3000, coverage=False)
+    # layer 2: the library's predecessor-link mechanism refines the contract flags (ObsMech.tla) ...
+    mcfg = "INIT Init\nNEXT Next\nINVARIANT Inv\nCONSTANTS\n MaxLists = %d\n TwoParent = %s\n"
+    ctx.model_check("ObsMechMC", cfg_text=mcfg % (4 if quick else 5, "TRUE"), timeout=3000)
+    # ... and the single-predecessor design (the code before the FX-C17-second-parent repair) does not: TLC must
+    # still find that design-level counterexample, otherwise the mechanism model has lost its teeth
+    r0 = ctx.tlc("ObsMechMC", cfg_text=mcfg % (4, "FALSE"), timeout=3000)
+    ctx.extra["obsmech_single_predecessor_design_refuted_by_tlc"] = bool(r0.invariant_violated)
+    if not r0.invariant_violated:
+        ctx.notes.append("spec-drift mechanism=ObsMech: the single-predecessor design is no longer refuted")
     rng = ctx.rng
     ntr = 1500 if quick else 20000
     traces = [random_trace(rng, rng.randint(2, 7)) for _ in range(ntr)]
